@@ -157,10 +157,13 @@ XalanTransformer::~XalanTransformer()
         DeleteFunctor<XalanParsedSource>(m_memoryManager));
 
     // Clean up the Function map.
-    for_each(
-        m_functions.begin(),
-        m_functions.end(),
-        MapValueDeleteFunctor<FunctionMapType>(m_memoryManager));
+    if (m_functions.empty() == false)
+    {
+        for_each(
+            m_functions.begin(),
+            m_functions.end(),
+            MapValueDeleteFunctor<FunctionMapType>(m_memoryManager));
+    }
 
 #if defined(XALAN_USE_ICU)
     // Uninstall the ICU collation compare functor, and destroy it...
